@@ -709,8 +709,8 @@ def gen_jobs(ctx, n_jobs, long_small=0):
         jobs.append(job)
     for i in range(long_small):
         jobs.append({"solver": "evo", "graph": rng.choice(["p2", "p3"]), "n_emitter": 1, "n_hof": rng.randrange(2, 7), "n_pop": rng.randrange(4, 11),
-                     "n_stop": rng.randrange(40, 121), "sel": rng.randrange(2), "adapt": rng.randrange(2), "k": 2, "seed": rng.randrange(10 ** 6),
-                     "det": 1, "backend": "s", "positions": 0})
+                     "n_stop": rng.randrange(30, 61) if ctx.quick else rng.randrange(40, 151), "sel": rng.randrange(2), "adapt": rng.randrange(2),
+                     "k": 2, "seed": rng.randrange(10 ** 6), "det": 1, "backend": "s", "positions": 0})
     return jobs
 
 
@@ -722,7 +722,7 @@ def cost(job):
     return job["n_stop"] * job["n_pop"] * (3 if job.get("backend") == "dm" else 1) + 5
 
 
-def schedule(jobs, n_workers, extra=()):
+def schedule(jobs, n_workers, extra=(), third=False):
     """-> tasks [(worker, job)], roles [(job index, role)]; run A and A2 on one worker, B (and C) on others"""
     load = [0] * n_workers
     tasks, roles = [], []
@@ -734,6 +734,11 @@ def schedule(jobs, n_workers, extra=()):
         load[b] += cost(jobs[i])
         tasks += [(a, jobs[i]), (a, jobs[i]), (b, jobs[i])]
         roles += [(i, "A"), (i, "A2"), (i, "B")]
+        if third and n_workers > 2:
+            c = min((w for w in range(n_workers) if w not in (a, b)), key=lambda w: load[w])
+            load[c] += cost(jobs[i])
+            tasks.append((c, jobs[i]))
+            roles.append((i, "C"))
     for w, job, role in extra:
         tasks.append((w, job))
         roles.append((job, role))
@@ -1013,11 +1018,11 @@ def run_jobs(ctx, res, drv, pool, jobs, with_witness=True, node_order=True):
         extra += [(0, WITNESS_JOB, "W0"), (1, WITNESS_JOB, "W1")]
     no_jobs = []
     if node_order:
-        for lo in ((0, 40) if ctx.quick else (0, 40, 80, 120)):
-            nj = {"kind": "node_order", "n_photon": 2, "n_emitter": 1, "seed_lo": lo, "seed_hi": lo + 40, "steps": 120}
+        for k, lo in enumerate((0, 40) if ctx.quick else range(0, 400, 40)):
+            nj = {"kind": "node_order", "n_photon": 2 + (k % 3 == 2), "n_emitter": 1 + (k % 5 == 4), "seed_lo": lo, "seed_hi": lo + 40, "steps": 120}
             no_jobs.append(nj)
-            extra += [(0, nj, "N0"), (1, nj, "N1"), (2 % pool.n, nj, "N2")]
-    tasks, roles = schedule(jobs, pool.n, extra)
+            extra += [((3 * k) % pool.n, nj, "N0"), ((3 * k + 1) % pool.n, nj, "N1"), ((3 * k + 2) % pool.n, nj, "N2")]
+    tasks, roles = schedule(jobs, pool.n, extra, third=not ctx.quick)
     outs = pool.run(tasks)
     by_job = {}
     wit = {}
@@ -1055,7 +1060,7 @@ def run_jobs(ctx, res, drv, pool, jobs, with_witness=True, node_order=True):
             lines.append(sl[0])
             recs.append((job, a, sl[1]))
         # reproducibility
-        for role in ("A2", "B"):
+        for role in ("A2", "B", "C"):
             o = runs.get(role)
             if o is None:
                 continue
@@ -1124,7 +1129,7 @@ def run(ctx):
         synth_tournament(ctx, res, drv)
         synth_adapt(ctx, res, drv)
         synth_choice(ctx, res, drv)
-        jobs = gen_jobs(ctx, 36 if ctx.quick else 240, long_small=0 if ctx.quick else 24)
+        jobs = gen_jobs(ctx, 44 if ctx.quick else 420, long_small=2 if ctx.quick else 40)
         run_jobs(ctx, res, drv, pool, jobs)
         if res.extra.get("infra_failures"):
             raise RuntimeError(f"{res.extra['infra_failures']} worker job(s) failed for infrastructure reasons: {res.notes[:3]}")
